@@ -96,8 +96,49 @@ ESNum(T, q, s) == LET A == Avail(T, s) IN
 ESDen(T, s)    == T.ED * Cardinality(Avail(T, s))
 ESTarget(T, q, s) == ESNum(T, q, s) \div ESDen(T, s)
 ESExact(T, q, s)  == ESNum(T, q, s) % ESDen(T, s) = 0
-\* expected SARSA with a positive softmax temperature needs exp(): only the range of its target is modelled
+\* expected SARSA with a positive softmax temperature tau: pi = eps * uniform + (1-eps) * softmax(Q/tau).  exp() is
+\* outside TLC's arithmetic, so two things are decided here:
+\*  (interval) softmax weights are monotone in Q, hence mean(Q) <= m_soft <= max(Q) (Chebyshev's sum inequality) and
+\*             the target lies in [mean, eps * mean + (1-eps) * max] - pure integer arithmetic, always checked;
+\*  (weights)  when the recorder supplies the softmax weights of the row (computed by the harness with math.exp from
+\*             the row the real table held before the update - the only trusted-Python part), TLC checks that they
+\*             are normalised and order-consistent with its own row, and that the written entry equals the rule with
+\*             target sum_a (eps/|A| + (1-eps) w_a) Q(ns,a).  Weights are logged in units of 1/2^20, split in
+\*             w = wh * 2^10 + wl so that every product stays inside 31 bits.
+\* In this configuration the machine resynchronises the written entry with the logged one (it is within the
+\* tolerance of the rule applied to the previous, equally resynchronised, table), so the distance between Q1 and
+\* the real table is at most the logging quantisation (1/2 unit) at every entry and the tolerances below are constants.
 Loose(T) == T.alg = "ESARSA" /\ T.temp0 = 0
+WH == 1024
+WU == 1048576
+RowSum(T, q, s)  == LET A == Avail(T, s) IN SumSet([a \in A |-> q[s][a]], A)
+Spread(T, q, s)  == RowMax(T, q, s) - RowMin(T, q, s)
+SoftW(e, a)      == e.wh[a] * WH + e.wl[a]
+\* weights usable: logged, and spread small enough for the two partial sums (sum wh <= 2^10, wl < 2^10)
+SoftUsable(T, q, s, e) == e.hw = 1 /\ Spread(T, q, s) * WH * Cardinality(Avail(T, s)) < 1073741824
+SoftNormalised(T, s, e) ==
+  LET A == Avail(T, s) IN
+  /\ \A a \in A : e.wh[a] >= 0 /\ e.wl[a] >= 0 /\ e.wl[a] < WH
+  /\ Close(SumSet([a \in A |-> SoftW(e, a)], A), WU, Cardinality(A))
+\* Q(a) > Q(b) beyond the resynchronisation error => w(a) >= w(b) up to the weight quantisation
+SoftOrdered(T, q, s, e) ==
+  \A a \in Avail(T, s) : \A b \in Avail(T, s) : q[s][a] > q[s][b] + 1 => SoftW(e, a) >= SoftW(e, b) - 1
+SoftMean(T, q, s, e) ==
+  LET A == Avail(T, s)  mn == RowMin(T, q, s) IN
+  mn + (SumSet([a \in A |-> e.wh[a] * (q[s][a] - mn)], A) \div WH)
+     + (SumSet([a \in A |-> e.wl[a] * (q[s][a] - mn)], A) \div WU)
+SoftTarget(T, q, s, e) ==
+  LET k == Cardinality(Avail(T, s)) IN
+  (T.EN * RowSum(T, q, s) + (T.ED - T.EN) * k * SoftMean(T, q, s, e)) \div (T.ED * k)
+\* interval of the target: [mean, eps * mean + (1-eps) * max], lower end rounded down, upper end rounded up
+SoftLo(T, q, s) == RowSum(T, q, s) \div Cardinality(Avail(T, s))
+SoftHi(T, q, s) == ESTarget(T, q, s) + 1
+\* derived constants (units): pre-state error 1/2 per entry (non-expansive: 1/2 on any convex combination);
+\* interval: 1 (floor of the bound) + 1 (floor of NewVal) + 1/2 (logging)                      -> 3 <= LTolI
+\* weights : 2 floors in SoftMean + < 1/2 weight quantisation (|A| * spread / 2^21 < 1/2 by SoftUsable) + 1 floor in
+\*           SoftTarget + 1 floor in NewVal + 1/2 + 1/2                                          -> 6 <= LTolW
+LTolI == 4
+LTolW == 8
 
 Out(T, w, c, old, r, tgt, tex) ==
   [w |-> w, c |-> c, new |-> NewVal(T, old, r, tgt), ex |-> (tex /\ Exact(T, old, r, tgt))]
@@ -217,22 +258,37 @@ StepFault(T, c, p, s, a, ns, na, r) ==
 
 \* outcomes of the rule that explain the logged entry (lq = written entry, for double Q: lq = q1[s][a], lq2 = q2[s][a];
 \* h1 / h2 = 1 iff that entry could be observed: the entry that was written must be, the other one need not exist yet)
-Matching(T, q1, q2, s, a, ns, na, n, lq, lq2, h1, h2) ==
+Matching(T, q1, q2, s, a, ns, na, n, lq, lq2, h1, h2, e) ==
   LET tol == Err(T, n + 1) + 1 IN
-  IF Loose(T) /\ h1 = 1
+  IF Loose(T)
   THEN LET r  == T.R[s][a][ns]
-           lo == NewVal(T, q1[s][a], r, RowMin(T, q1, ns))
-           hi == NewVal(T, q1[s][a], r, RowMax(T, q1, ns))
-       IN IF lq >= lo - tol /\ lq <= hi + tol
-          THEN {[w |-> 1, c |-> 0, new |-> MaxI(lo, MinI(hi, lq)), ex |-> TRUE]}   \* resynchronised inside the range
+           lo == NewVal(T, q1[s][a], r, SoftLo(T, q1, ns))
+           hi == NewVal(T, q1[s][a], r, SoftHi(T, q1, ns))
+           inInterval == h1 = 1 /\ lq >= lo - LTolI /\ lq <= hi + LTolI
+           byWeights  == IF SoftUsable(T, q1, ns, e)
+                         THEN /\ SoftNormalised(T, ns, e) /\ SoftOrdered(T, q1, ns, e)
+                              /\ Close(NewVal(T, q1[s][a], r, SoftTarget(T, q1, ns, e)), lq, LTolW)
+                         ELSE TRUE
+       IN IF inInterval /\ byWeights
+          THEN {[w |-> 1, c |-> 0, new |-> lq, ex |-> TRUE]}   \* resynchronised with the logged entry
           ELSE {}
   ELSE {o \in Outcomes(T, q1, q2, s, a, ns, na, 2 * (Err(T, n) + 1)) :
           IF T.alg = "DQ"
           THEN IF o.w = 1 THEN h1 = 1 /\ Close(o.new, lq, tol)  /\ (h2 = 1 => Close(q2[s][a], lq2, Err(T, n) + 1))
                           ELSE h2 = 1 /\ Close(o.new, lq2, tol) /\ (h1 = 1 => Close(q1[s][a], lq, Err(T, n) + 1))
           ELSE h1 = 1 /\ Close(o.new, lq, tol)}
-SomeExpected(T, q1, q2, s, a, ns, na) ==
-  IF Loose(T) THEN 0 ELSE (CHOOSE o \in Outcomes(T, q1, q2, s, a, ns, na, 0) : TRUE).new
+\* which part of the softmax configuration rejected the step (for the signature)
+LooseShape(T, q1, s, a, ns, lq, h1, e) ==
+  LET r  == T.R[s][a][ns]
+      lo == NewVal(T, q1[s][a], r, SoftLo(T, q1, ns))
+      hi == NewVal(T, q1[s][a], r, SoftHi(T, q1, ns))
+  IN IF ~(h1 = 1 /\ lq >= lo - LTolI /\ lq <= hi + LTolI) THEN "update-rule/softmax-target-outside-interval"
+     ELSE IF ~SoftNormalised(T, ns, e) \/ ~SoftOrdered(T, q1, ns, e) THEN "update-rule/softmax-weights-inconsistent"
+     ELSE "update-rule/softmax-target-differs-from-weighted-rule"
+SomeExpected(T, q1, q2, s, a, ns, na, e) ==
+  IF Loose(T) THEN (IF SoftUsable(T, q1, ns, e) THEN NewVal(T, q1[s][a], T.R[s][a][ns], SoftTarget(T, q1, ns, e))
+                    ELSE NewVal(T, q1[s][a], T.R[s][a][ns], SoftHi(T, q1, ns)))
+  ELSE (CHOOSE o \in Outcomes(T, q1, q2, s, a, ns, na, 0) : TRUE).new
 
 TraceStep ==
   /\ Mode = "trace" /\ phase = "run" /\ l <= Len(Tr.ev) /\ Ev.k = "step"
@@ -241,10 +297,12 @@ TraceStep ==
      IN IF fault # "ok"
         THEN Reject(F(fault, s, a, IF fault = "step-reward" THEN Tr.R[s][a][ns] * SCALE ELSE 0,
                                    IF fault = "step-reward" THEN Ev.r ELSE 0))
-        ELSE LET outs  == Matching(Tr, Q1, Q2, s, a, ns, na, nupd, Ev.q, Ev.q2, Ev.h1, Ev.h2)
-                 shape == IF IsAbs(Tr, ns) THEN "update-rule/next-state-absorbing" ELSE "update-rule/next-state-non-absorbing"
+        ELSE LET outs  == Matching(Tr, Q1, Q2, s, a, ns, na, nupd, Ev.q, Ev.q2, Ev.h1, Ev.h2, Ev)
+                 shape == IF Loose(Tr) THEN LooseShape(Tr, Q1, s, a, ns, Ev.q, Ev.h1, Ev)
+                          ELSE IF IsAbs(Tr, ns) THEN "update-rule/next-state-absorbing"
+                          ELSE "update-rule/next-state-non-absorbing"
                  b     == Bounds(Tr, nupd + 1)
-             IN IF outs = {} THEN Reject(F(shape, s, a, SomeExpected(Tr, Q1, Q2, s, a, ns, na), Ev.q))
+             IN IF outs = {} THEN Reject(F(shape, s, a, SomeExpected(Tr, Q1, Q2, s, a, ns, na, Ev), Ev.q))
                 ELSE IF mode = "spec" /\ ~(InB(b, Ev.q, 1) /\ (Tr.alg = "DQ" => InB(b, Ev.q2, 1)))
                      THEN Reject(F("bounded/step", s, a, b[2] \div b[3], Ev.q))
                 ELSE /\ \E o \in outs : Apply(s, a, ns, na, o)
